@@ -541,3 +541,68 @@ Lemma change_case_upto_case_all_lemma s mode out : change_case s mode = Ok out -
 Proof.
   unfold change_case. intros H. inv_ok. rewrite cc_go_lower, (scan_lossless_all_lemma s r Hr). reflexivity.
 Qed.
+
+(* ------------------------------------------------------------------ the exact domain of the case-change laws *)
+Lemma ends_in_special_lower : forall s s' d sp, lower s = lower s' ->
+  ends_in_special_go s d sp = ends_in_special_go s' d sp.
+Proof.
+  induction s as [|a s IH]; intros [|b s'] d sp H; try discriminate; [reflexivity|].
+  cbn [lower map] in H. injection H as Hc H. fold (lower s) in H. fold (lower s') in H.
+  cbn [ends_in_special_go].
+  pose proof (fold_lb _ _ Hc) as E1. pose proof (fold_rb _ _ Hc) as E2.
+  unfold is_lbrace, is_rbrace in E1, E2. rewrite E1, E2.
+  fold (bs_head s). fold (bs_head s'). rewrite (lower_bs_head s s' H).
+  destruct sp as [k|].
+  - destruct (N.eqb b c_lbrace); [apply IH; exact H|].
+    destruct (N.eqb b c_rbrace); [|apply IH; exact H]. destruct k; apply IH; exact H.
+  - destruct (N.eqb b c_lbrace).
+    + destruct (Nat.eqb d 0 && bs_head s'); apply IH; exact H.
+    + destruct (N.eqb b c_rbrace); apply IH; exact H.
+Qed.
+
+Lemma balanced_not_in_special_go : forall s d sp,
+  depth_from (match sp with None => d | Some k => S k end) s = Some 0 ->
+  ends_in_special_go s d sp = false.
+Proof.
+  induction s as [|c t IH]; intros d sp H.
+  - destruct sp; [discriminate|reflexivity].
+  - cbn [depth_from] in H. cbn [ends_in_special_go]. destruct sp as [k|].
+    + destruct (N.eqb c c_lbrace); [apply (IH d (Some (S k))); exact H|].
+      destruct (N.eqb c c_rbrace); [|apply (IH d (Some k)); exact H].
+      destruct k; [apply (IH 0 None); exact H|apply (IH d (Some k)); exact H].
+    + destruct (N.eqb c c_lbrace).
+      * destruct (Nat.eqb d 0 && _) eqn:E.
+        -- apply andb_prop in E as [E0 _]. apply Nat.eqb_eq in E0. subst d. apply (IH 0 (Some 0)). exact H.
+        -- apply (IH (S d) None). exact H.
+      * destruct (N.eqb c c_rbrace); [|apply (IH d None); exact H].
+        destruct d; [discriminate|]. apply (IH d None). exact H.
+Qed.
+
+Lemma balanced_not_in_special_lemma s : balanced s -> ends_in_special s = false.
+Proof. intros H. apply (balanced_not_in_special_go s 0 None). exact H. Qed.
+
+Lemma change_case_upto_case_gen s mode out :
+  ends_in_special s = false -> change_case s mode = Ok out -> lower out = lower s.
+Proof.
+  intros He H. rewrite (change_case_upto_case_all_lemma s mode out H), He, app_nil_r. reflexivity.
+Qed.
+
+Lemma change_case_length_gen s mode out :
+  ends_in_special s = false -> change_case s mode = Ok out -> length out = length s.
+Proof. intros He H. apply lower_length. apply (change_case_upto_case_gen s mode out He H). Qed.
+
+Lemma change_case_idem_gen s mode out :
+  ends_in_special s = false -> change_case s mode = Ok out -> change_case out mode = Ok out.
+Proof.
+  intros He H. pose proof (change_case_upto_case_gen s mode out He H) as Hlow.
+  unfold change_case in H. inv_ok.
+  set (out := change_case_go r mode St_start) in *.
+  destruct (scan_go_rel s out 0 None None r (eq_sym Hlow) I Hr) as (r' & Hr' & HF).
+  fold (scan out) in Hr'.
+  assert (Heo : ends_in_special out = false).
+  { unfold ends_in_special. rewrite (ends_in_special_lower out s 0 None Hlow). exact He. }
+  pose proof (scan_lossless_all_lemma out r' Hr') as Hloss. rewrite Heo, app_nil_r in Hloss.
+  assert (E : r' = timg r mode St_start).
+  { apply (toks_eq r); [exact HF|apply timg_rel|]. rewrite Hloss. unfold out. apply cc_go_timg. }
+  unfold change_case. rewrite Hr'. cbn [bind]. rewrite E, cc_go_timg_idem. reflexivity.
+Qed.
